@@ -34,6 +34,8 @@ func runC11(c *Check, tier string) {
 	ruleR11k(c)
 	ruleR11l(c)
 	ruleEveryLoadedPackageRegistered(c, "R11m")
+	// the workspace root as a directory output contains every path
+	rulePrefixContainmentHandlesDot(c, "R11n")
 }
 
 func isNoReturnCall(in ssa.Instruction) bool {
@@ -1184,8 +1186,24 @@ func ruleEveryLoadedPackageRegistered(c *Check, rule string) {
 				continue
 			}
 			lp := engine.LoopOf(s)
+			// a function that hands the package on to its caller is itself a producer: the caller is judged
 			if lp == nil {
-				continue
+				hands := false
+				for _, r := range engine.Returns(fn) {
+					for _, rv := range r.Results {
+						if engine.TypeKey(rv.Type()) != "model.Package" {
+							continue
+						}
+						for _, o := range engine.Origins(rv) {
+							if call, _ := engine.CallOf(o); call == s {
+								hands = true
+							}
+						}
+					}
+				}
+				if hands {
+					continue
+				}
 			}
 			n++
 			registers := func(in ssa.Instruction) bool {
@@ -1238,8 +1256,13 @@ func ruleEveryLoadedPackageRegistered(c *Check, rule string) {
 				}
 				return false
 			})
-			toHeader := func(in ssa.Instruction) bool { return in == lp.Header.Instrs[0] }
-			reach, _ := engine.PathExists(fn, s, toHeader, engine.PathQuery{CutInstr: registers, CutEdge: failed, Shallow: true})
+			// the per-file step ends at the next iteration of the loop it sits in, or — when it is a function of
+			// its own that a loop calls once per file — at that function's return
+			done := func(in ssa.Instruction) bool { _, r := in.(*ssa.Return); return r && in.Parent() == fn }
+			if lp != nil {
+				done = func(in ssa.Instruction) bool { return in == lp.Header.Instrs[0] }
+			}
+			reach, _ := engine.PathExists(fn, s, done, engine.PathQuery{CutInstr: registers, CutEdge: failed, Shallow: true})
 			c.Require(!reach, rule, "loaded-package-registered/"+c.P.FuncName(engine.TopFunc(fn)), "a successfully enriched package is always inserted or merged", "after a package file was loaded and enriched successfully the loop can go on to the next file without registering it (a `continue` for packages that look empty, say): a BUILD file that only declares aliases disappears — dependencies on those aliases are reported missing in a valid workspace, and alias cycles, dangling aliases and duplicate labels in it are never seen by the validators", c.P.InstrPos(s))
 		}
 	}
